@@ -350,6 +350,7 @@ func (d *Document) CreateTable(config *TableConfig) (*Table, error) {
 							{
 								Text: Text{
 									Content: "",
+									Space:   "preserve",
 								},
 							},
 						},
@@ -532,6 +533,7 @@ func (t *Table) InsertRow(position int, data []string) error {
 						{
 							Text: Text{
 								Content: "",
+								Space:   "preserve",
 							},
 						},
 					},
@@ -742,6 +744,7 @@ func (t *Table) InsertColumn(position int, data []string, width int) error {
 						{
 							Text: Text{
 								Content: "",
+								Space:   "preserve",
 							},
 						},
 					},
@@ -901,7 +904,7 @@ func (t *Table) SetCellText(row, col int, text string) error {
 			{
 				Runs: []Run{
 					{
-						Text: Text{Content: text},
+						Text: Text{Content: text, Space: "preserve"},
 					},
 				},
 			},
@@ -910,11 +913,12 @@ func (t *Table) SetCellText(row, col int, text string) error {
 		if len(cell.Paragraphs[0].Runs) == 0 {
 			cell.Paragraphs[0].Runs = []Run{
 				{
-					Text: Text{Content: text},
+					Text: Text{Content: text, Space: "preserve"},
 				},
 			}
 		} else {
 			cell.Paragraphs[0].Runs[0].Text.Content = text
+			cell.Paragraphs[0].Runs[0].Text.Space = "preserve"
 		}
 	}
 
@@ -1202,7 +1206,7 @@ func (t *Table) SetCellFormattedText(row, col int, text string, format *TextForm
 
 	// 创建格式化的运行
 	run := Run{
-		Text: Text{Content: text},
+		Text: Text{Content: text, Space: "preserve"},
 	}
 
 	if format != nil {
@@ -1260,7 +1264,7 @@ func (t *Table) AddCellFormattedText(row, col int, text string, format *TextForm
 
 	// 创建格式化的运行
 	run := Run{
-		Text: Text{Content: text},
+		Text: Text{Content: text, Space: "preserve"},
 	}
 
 	if format != nil {
